@@ -51,9 +51,8 @@ Step(e) ==
                     \* this history is then not constrained
                     \/ /\ dev /\ r.status = "wild" /\ lost' = TRUE /\ UNCHANGED s
                     \* the statement does not fix the outcome (sort of an array of arrays, an array pushed into
-                    \* itself), or an index past the end was read, which C15 leaves to C09 (intended: null and
-                    \* nothing changes - the branch below; the pinned code pads the array): not constrained further
-                    \/ /\ (r.status = "open" \/ (r.status = "ok" /\ r.s.pe)) /\ lost' = TRUE /\ UNCHANGED s
+                    \* itself, ++ of a container): not constrained further
+                    \/ /\ r.status = "open" /\ lost' = TRUE /\ UNCHANGED s
                     \/ /\ r.status = "ok" /\ ~e.err
                        /\ Fits(LTree(r.s, r.res, ResIsReceiver(e.st), 5), e.res)
                        /\ \A k \in 1..3 : Len(r.s.h[k].items) = e.lens[k]
